@@ -106,6 +106,11 @@ func (e *Environment) StoreEnvironmentVariablesFromInitForInitCaching(host strin
 	e.credentials["AWS_CONTAINER_CREDENTIALS_FULL_URI"] = fmt.Sprintf("http://%s:%d/2021-04-23/credentials", host, port)
 	e.credentials["AWS_CONTAINER_AUTHORIZATION_TOKEN"] = token
 
+	// in this mode the runtime obtains its credentials from the endpoint above only: the customer's
+	// map (the whole process environment, for the emulator's front end) must not carry them along
+	credentialKeys := predefinedCredentialsEnvVarKeys()
+	customerEnv = mapExclude(customerEnv, func(key string) bool { return credentialKeys[key] })
+
 	e.storeNonCredentialEnvironmentVariablesFromInit(customerEnv, handler, funcName, funcVer)
 }
 
